@@ -50,8 +50,21 @@ pub fn rows_random(out: &mut Out, rng: &mut Rng, cases: usize) {
     }
 }
 
-/// hash families: uniformly mixed, low bits only, high bits only, a few fixed values
+/// inverse of the 64-bit finalizer the Bloom filter applies to a hash before deriving its probes: with
+/// it the structured families below can be aimed at the *mixed* hash (low bits zero, high bits zero, ...)
+pub fn unmix64(x: u64) -> u64 {
+    let mut x = x;
+    x = (x ^ (x >> 31) ^ (x >> 62)).wrapping_mul(0x3196_42b2_d24d_8ec3);
+    x = (x ^ (x >> 27) ^ (x >> 54)).wrapping_mul(0x96de_1b17_3f11_9089);
+    x ^ (x >> 30) ^ (x >> 60)
+}
+
+/// hash families: uniformly mixed, low bits only, high bits only, a few fixed values; families 5.. are
+/// the same patterns as seen *after* the filter's mixing step
 pub fn gen_hash(rng: &mut Rng, family: u64, universe: u64) -> u64 {
+    if family >= 5 {
+        return unmix64(gen_hash(rng, family - 4, universe));
+    }
     let x = rng.below(universe);
     match family {
         0 => Rng::new(x).next(),                // mixed, but from a small universe so repeats happen
@@ -71,7 +84,7 @@ pub fn bloom_trace(out: &mut Out, rng: &mut Rng, ops: usize) {
     let (exp, _size, k, _shift) = b.params();
     out.line(&format!("# bloom cap={} fp={}", cap, fp));
     out.line(&format!("bloom.init exp={} k={}", exp, k));
-    let family = rng.below(5);
+    let family = rng.below(9);
     let universe = rng.range(4, 200);
     for _ in 0..ops {
         let h = gen_hash(rng, family, universe);
@@ -132,7 +145,7 @@ pub fn tiny_trace(out: &mut Out, rng: &mut Rng, num_counters: usize, ops: usize)
         s.bloom_params.2,
         s.samples
     ));
-    let family = rng.below(4);
+    let family = rng.below(9);
     let universe = rng.range(1, 12);
     for _ in 0..ops {
         let h = gen_hash(rng, family, universe);
